@@ -271,3 +271,374 @@ Proof.
   cbn [msgs_valid forallb]. unfold msg_valid, publish_ok, form_ok. subst m. cbn [p_bad p_qos p_form negb].
   apply andb_true_iff in Hq as [H1 H2]. rewrite H1, H2. reflexivity.
 Qed.
+
+(* ================================================================== subscribe side *)
+
+Lemma srun_halted : forall mode tp q evs s, u_halt s = true -> srun mode tp q s evs = (s, []).
+Proof.
+  induction evs as [|e evs IH]; intros s H; cbn [srun]; [reflexivity|].
+  unfold sstep. rewrite H. cbn [fst snd]. rewrite (IH s H). reflexivity.
+Qed.
+
+Lemma srun_cons mode tp q s e evs :
+  srun mode tp q s (e :: evs) =
+  (fst (srun mode tp q (fst (sstep mode tp q s e)) evs),
+   snd (sstep mode tp q s e) ++ snd (srun mode tp q (fst (sstep mode tp q s e)) evs)).
+Proof. reflexivity. Qed.
+
+Lemma subs_no_raise tp q : existsb is_sraise (subs tp q) = false.
+Proof.
+  destruct tp as [t|l]; cbn [subs]; [reflexivity|].
+  induction l as [|x l IH]; cbn [map existsb is_sraise orb]; [reflexivity|exact IH].
+Qed.
+Lemma nonsub_subs tp q : nonsub (subs tp q) = [].
+Proof.
+  destruct tp as [t|l]; cbn [subs]; [reflexivity|].
+  induction l as [|x l IH]; cbn [map nonsub filter is_ssub negb]; [reflexivity|exact IH].
+Qed.
+Lemma users_subs tp q : users (subs tp q) = [].
+Proof.
+  destruct tp as [t|l]; cbn [subs]; [reflexivity|].
+  induction l as [|x l IH]; cbn [map users flat_map app]; [reflexivity|exact IH].
+Qed.
+Lemma disconnects_subs tp q : disconnects (subs tp q) = 0.
+Proof.
+  unfold disconnects. destruct tp as [t|l]; cbn [subs]; [reflexivity|].
+  induction l as [|x l IH]; cbn [map filter]; [reflexivity|exact IH].
+Qed.
+Lemma connect_sub_ok tp q : h_on_connect_sub 0 tp q = subs tp q.
+Proof. destruct tp; reflexivity. Qed.
+
+Lemma sstep_connack mode tp q st :
+  sstep mode tp q (mkSub st false) (SEConnack 0) = (mkSub st false, subs tp q).
+Proof.
+  unfold sstep. cbn [u_halt u_st]. rewrite connect_sub_ok, subs_no_raise. reflexivity.
+Qed.
+
+Lemma sstep_refused mode tp q st rc : rc =? 0 = false ->
+  sstep mode tp q (mkSub st false) (SEConnack rc) = (mkSub st true, [SRaise 3]).
+Proof. intro H. unfold sstep, h_on_connect_sub. cbn [u_halt u_st]. rewrite H. reflexivity. Qed.
+
+(* the message handler alone, without the halting wrapper *)
+Fixpoint msteps (s : sstate) (ins : list imsg) : sstate * list sapi :=
+  match ins with
+  | [] => (s, [])
+  | m :: ins' =>
+      let r := h_on_message_simple s m in
+      let r' := msteps (fst r) ins' in
+      (fst r', snd r ++ snd r')
+  end.
+
+Lemma msteps_cons s m ins :
+  msteps s (m :: ins) =
+  (fst (msteps (fst (h_on_message_simple s m)) ins),
+   snd (h_on_message_simple s m) ++ snd (msteps (fst (h_on_message_simple s m)) ins)).
+Proof. reflexivity. Qed.
+
+(* the states simple() can be in *)
+Definition good (s : sstate) : Prop :=
+  match s_msgs s with
+  | MNone => s_count s = 1
+  | MSingle _ => s_count s = 0
+  | MList _ => 0 <= s_count s
+  end.
+
+Lemma simple_step_good s m : good s ->
+  good (fst (h_on_message_simple s m))
+  /\ (snd (h_on_message_simple s m) = [] \/ snd (h_on_message_simple s m) = [SDisconnect]).
+Proof.
+  destruct s as [c ms r]. unfold good, h_on_message_simple. cbn [s_count s_msgs s_retained].
+  intro G. destruct (c =? 0) eqn:E0; [cbn [fst snd s_msgs s_count]; auto|].
+  destruct (i_retain m && negb r); [cbn [fst snd s_msgs s_count]; auto|].
+  destruct ms as [|x|l].
+  - subst c. change (1 - 1 =? 0) with true. cbn [fst snd s_msgs s_count]. split; [reflexivity|auto].
+  - lia.
+  - cbn [fst snd s_msgs s_count]. split; [lia|]. destruct (c - 1 =? 0); auto.
+Qed.
+
+Lemma sstep_message_good tp q s m : good s ->
+  sstep ModeSimple tp q (mkSub s false) (SEMessage m) =
+  (mkSub (fst (h_on_message_simple s m)) false, snd (h_on_message_simple s m)).
+Proof.
+  intro G. unfold sstep. cbn [u_halt u_st].
+  destruct (simple_step_good s m G) as [_ [E|E]]; rewrite E; reflexivity.
+Qed.
+
+Lemma srun_msgs tp q : forall ins s, good s ->
+  srun ModeSimple tp q (mkSub s false) (map SEMessage ins) =
+  (mkSub (fst (msteps s ins)) false, snd (msteps s ins)).
+Proof.
+  induction ins as [|m ins IH]; intros s G; [reflexivity|].
+  cbn [map]. rewrite srun_cons, (sstep_message_good tp q s m G). cbn [fst snd].
+  rewrite (IH _ (proj1 (simple_step_good s m G))). reflexivity.
+Qed.
+
+Lemma pass_skip r m : i_retain m && negb r = negb (pass r m).
+Proof. unfold pass. destruct (i_retain m), r; reflexivity. Qed.
+
+Lemma msteps_zero : forall ins ms r, msteps (mkSS 0 ms r) ins = (mkSS 0 ms r, []).
+Proof.
+  induction ins as [|m ins IH]; intros ms r; [reflexivity|].
+  cbn [msteps]. unfold h_on_message_simple at 1 2 3. cbn [s_count]. change (0 =? 0) with true.
+  cbn [fst snd app]. rewrite IH. reflexivity.
+Qed.
+
+Lemma step_skip c ms r m : pass r m = false ->
+  h_on_message_simple (mkSS c ms r) m = (mkSS c ms r, []).
+Proof.
+  intro H. unfold h_on_message_simple. cbn [s_count s_retained]. rewrite pass_skip, H.
+  destruct (c =? 0); reflexivity.
+Qed.
+
+Lemma step_list c acc r m : c =? 0 = false -> pass r m = true ->
+  h_on_message_simple (mkSS c (MList acc) r) m =
+  (mkSS (c - 1) (MList (acc ++ [m])) r, if c - 1 =? 0 then [SDisconnect] else []).
+Proof.
+  intros H0 H. unfold h_on_message_simple. cbn [s_count s_retained s_msgs]. rewrite pass_skip, H, H0.
+  reflexivity.
+Qed.
+
+Lemma step_none r m : pass r m = true ->
+  h_on_message_simple (mkSS 1 MNone r) m = (mkSS 0 (MSingle m) r, [SDisconnect]).
+Proof.
+  intro H. unfold h_on_message_simple. cbn [s_count s_retained s_msgs]. rewrite pass_skip, H.
+  reflexivity.
+Qed.
+
+Lemma msteps_list : forall ins c acc r, 0 <= c ->
+  msteps (mkSS c (MList acc) r) ins =
+  (mkSS (c - Z.min c (hlen (filter (pass r) ins)))
+        (MList (acc ++ firstn (Z.to_nat c) (filter (pass r) ins))) r,
+   if (0 <? c) && (c <=? hlen (filter (pass r) ins)) then [SDisconnect] else []).
+Proof.
+  induction ins as [|m ins IH]; intros c acc r Hc.
+  - cbn [msteps filter]. rewrite firstn_nil, app_nil_r, hlen_nil.
+    replace (c - Z.min c 0) with c by lia.
+    destruct (0 <? c) eqn:E1; destruct (c <=? 0) eqn:E2; cbn [andb]; try reflexivity. lia.
+  - cbn [filter]. destruct (pass r m) eqn:Hp.
+    + destruct (c =? 0) eqn:E0.
+      * apply Z.eqb_eq in E0. subst c. rewrite msteps_zero.
+        change (Z.to_nat 0) with 0%nat. cbn [firstn andb]. rewrite app_nil_r.
+        pose proof (hlen_nonneg (m :: filter (pass r) ins)).
+        replace (0 - Z.min 0 (hlen (m :: filter (pass r) ins))) with 0 by lia.
+        change (0 <? 0) with false. reflexivity.
+      * rewrite msteps_cons, (step_list c acc r m E0 Hp). cbn [fst snd].
+        rewrite (IH (c - 1) (acc ++ [m]) r) by lia. cbn [fst snd]. rewrite hlen_cons.
+        pose proof (hlen_nonneg (filter (pass r) ins)) as HL.
+        f_equal.
+        -- f_equal; [lia|].
+           replace (Z.to_nat c) with (S (Z.to_nat (c - 1))) by lia.
+           cbn [firstn]. rewrite <- app_assoc. reflexivity.
+        -- destruct (c - 1 =? 0) eqn:E1.
+           ++ assert (A1 : 0 <? c - 1 = false) by lia. assert (A2 : 0 <? c = true) by lia.
+              assert (A3 : c <=? hlen (filter (pass r) ins) + 1 = true) by lia.
+              rewrite A1, A2, A3. reflexivity.
+           ++ assert (A1 : (0 <? c - 1) = (0 <? c)) by lia.
+              assert (A3 : (c - 1 <=? hlen (filter (pass r) ins)) = (c <=? hlen (filter (pass r) ins) + 1)) by lia.
+              rewrite A1, A3. reflexivity.
+    + rewrite msteps_cons, (step_skip c (MList acc) r m Hp). cbn [fst snd app].
+      rewrite (IH c acc r Hc). reflexivity.
+Qed.
+
+Lemma msteps_none : forall ins r,
+  msteps (mkSS 1 MNone r) ins =
+  match filter (pass r) ins with
+  | [] => (mkSS 1 MNone r, [])
+  | m :: _ => (mkSS 0 (MSingle m) r, [SDisconnect])
+  end.
+Proof.
+  induction ins as [|m ins IH]; intros r; [reflexivity|].
+  cbn [filter]. rewrite msteps_cons. destruct (pass r m) eqn:Hp.
+  - rewrite (step_none r m Hp). cbn [fst snd]. rewrite msteps_zero. reflexivity.
+  - rewrite (step_skip 1 MNone r m Hp). cbn [fst snd app]. rewrite IH.
+    destruct (filter (pass r) ins); reflexivity.
+Qed.
+
+Lemma good_init n r : 1 <= n -> good (simple_init n r).
+Proof.
+  intro H. unfold good, simple_init. destruct (n =? 1) eqn:E; cbn [s_msgs s_count]; lia.
+Qed.
+
+Lemma msteps_init n r ins : 1 <= n ->
+  msteps (simple_init n r) ins =
+  (mkSS (n - Z.min n (hlen (filter (pass r) ins))) (simple_result n r ins) r,
+   if enough n r ins then [SDisconnect] else []).
+Proof.
+  intro Hn. unfold simple_init, simple_result, enough. destruct (n =? 1) eqn:E1.
+  - apply Z.eqb_eq in E1. subst n. rewrite msteps_none.
+    destruct (filter (pass r) ins) as [|m F].
+    + reflexivity.
+    + rewrite hlen_cons. pose proof (hlen_nonneg F).
+      replace (1 - Z.min 1 (hlen F + 1)) with 0 by lia.
+      assert (A : 1 <=? hlen F + 1 = true) by lia. rewrite A. reflexivity.
+  - rewrite msteps_list by lia. cbn [app]. unfold simple_collect.
+    assert (A : 0 <? n = true) by lia. rewrite A. reflexivity.
+Qed.
+
+(* closed form of simple() under the cooperative client, for every inbound sequence *)
+Theorem simple_closed tp qos n r ins : 1 <= n -> qos_bad qos = false ->
+  h_simple tp qos n r (coop_sub ins) =
+  (simple_result n r ins, subs tp qos ++ (if enough n r ins then [SDisconnect] else [])).
+Proof.
+  intros Hn Hq. unfold h_simple. assert (A : n <? 1 = false) by lia. rewrite A, Hq.
+  unfold coop_sub. rewrite srun_cons, sstep_connack. cbn [fst snd].
+  rewrite (srun_msgs tp qos ins _ (good_init n r Hn)). rewrite (msteps_init n r ins Hn).
+  reflexivity.
+Qed.
+
+Lemma ret_list_result n r ins : 1 <= n -> ret_list (simple_result n r ins) = simple_collect n r ins.
+Proof.
+  intro Hn. unfold simple_result, simple_collect. destruct (n =? 1) eqn:E.
+  - apply Z.eqb_eq in E. subst n. change (Z.to_nat 1) with 1%nat.
+    destruct (filter (pass r) ins); reflexivity.
+  - reflexivity.
+Qed.
+
+Theorem simple_returns tp qos n r ins : 1 <= n -> qos_bad qos = false -> enough n r ins = true ->
+  exists ret,
+    h_simple tp qos n r (coop_sub ins) = (ret, subs tp qos ++ [SDisconnect])
+    /\ ret_list ret = simple_collect n r ins
+    /\ ret_is_single ret = (n =? 1)
+    /\ hlen (ret_list ret) = n.
+Proof.
+  intros Hn Hq He. exists (simple_result n r ins). rewrite (simple_closed tp qos n r ins Hn Hq), He.
+  split; [reflexivity|]. split; [apply ret_list_result; exact Hn|]. split.
+  - unfold simple_result. unfold enough in He. destruct (n =? 1) eqn:E; [|reflexivity].
+    destruct (filter (pass r) ins); [|reflexivity]. rewrite hlen_nil in He. lia.
+  - rewrite (ret_list_result n r ins Hn). unfold simple_collect, enough, hlen in *.
+    rewrite firstn_length_le by lia. lia.
+Qed.
+
+Theorem simple_starved tp qos n r ins : 1 <= n -> qos_bad qos = false -> enough n r ins = false ->
+  h_simple tp qos n r (coop_sub ins) = (simple_result n r ins, subs tp qos)
+  /\ ret_list (simple_result n r ins) = filter (pass r) ins
+  /\ disconnects (snd (h_simple tp qos n r (coop_sub ins))) = 0.
+Proof.
+  intros Hn Hq He. rewrite (simple_closed tp qos n r ins Hn Hq), He, app_nil_r. cbn [snd].
+  split; [reflexivity|]. split; [|apply disconnects_subs].
+  rewrite (ret_list_result n r ins Hn). unfold simple_collect, enough, hlen in *.
+  apply firstn_all2. lia.
+Qed.
+
+Lemma firstn_snoc1 {A} : forall (F : list A) x tail,
+  firstn (S (length F)) (F ++ x :: tail) = F ++ [x].
+Proof.
+  induction F as [|y F IH]; intros x tail; [reflexivity|].
+  change (firstn (S (length (y :: F))) ((y :: F) ++ x :: tail))
+    with (y :: firstn (S (length F)) (F ++ x :: tail)).
+  rewrite IH. reflexivity.
+Qed.
+Lemma firstn_snoc {A} (F : list A) x tail k : k = S (length F) ->
+  firstn k (F ++ x :: tail) = F ++ [x].
+Proof. intros ->. apply firstn_snoc1. Qed.
+
+Lemma filter_len0 {A} (F : list A) : hlen F = 0 -> F = [].
+Proof. destruct F; [reflexivity|]. rewrite hlen_cons. pose proof (hlen_nonneg F). lia. Qed.
+
+Theorem simple_disconnect_point tp qos n r pre m post : 1 <= n -> qos_bad qos = false ->
+  pass r m = true -> hlen (filter (pass r) pre) = n - 1 ->
+  snd (h_simple tp qos n r (coop_sub pre)) = subs tp qos
+  /\ snd (h_simple tp qos n r (coop_sub (pre ++ [m]))) = subs tp qos ++ [SDisconnect]
+  /\ h_simple tp qos n r (coop_sub (pre ++ m :: post)) = h_simple tp qos n r (coop_sub (pre ++ [m])).
+Proof.
+  intros Hn Hq Hp HL.
+  rewrite !(simple_closed tp qos n r _ Hn Hq). cbn [snd].
+  assert (E1 : enough n r pre = false) by (unfold enough; rewrite HL; lia).
+  assert (E2 : enough n r (pre ++ [m]) = true).
+  { unfold enough. rewrite filter_app, hlen_app. cbn [filter]. rewrite Hp, hlen_cons, hlen_nil, HL. lia. }
+  assert (E3 : enough n r (pre ++ m :: post) = true).
+  { unfold enough. rewrite filter_app, hlen_app. cbn [filter]. rewrite Hp, hlen_cons, HL.
+    pose proof (hlen_nonneg (filter (pass r) post)). lia. }
+  rewrite E1, E2, E3, app_nil_r. split; [reflexivity|]. split; [reflexivity|].
+  f_equal. unfold simple_result, simple_collect. rewrite !filter_app. cbn [filter]. rewrite Hp.
+  destruct (n =? 1) eqn:E.
+  - apply Z.eqb_eq in E. subst n. rewrite (filter_len0 _ HL). reflexivity.
+  - f_equal. unfold hlen in HL.
+    rewrite (firstn_snoc (filter (pass r) pre) m (filter (pass r) post)) by lia.
+    rewrite (firstn_snoc (filter (pass r) pre) m []) by lia. reflexivity.
+Qed.
+
+(* ---- any interleaving of (accepted) CONNACKs and messages, e.g. messages around a re-subscribe *)
+Lemma nonsub_app a b : nonsub (a ++ b) = nonsub a ++ nonsub b.
+Proof. unfold nonsub. apply filter_app. Qed.
+
+Lemma srun_any tp q : forall evs s, good s -> connacks_ok evs = true ->
+  fst (srun ModeSimple tp q (mkSub s false) evs) = mkSub (fst (msteps s (messages_of evs))) false
+  /\ nonsub (snd (srun ModeSimple tp q (mkSub s false) evs)) = snd (msteps s (messages_of evs)).
+Proof.
+  induction evs as [|e evs IH]; intros s G Hc; [split; reflexivity|].
+  cbn [connacks_ok forallb] in Hc. apply andb_true_iff in Hc as [He Hc].
+  rewrite srun_cons. destruct e as [rc|m].
+  - apply Z.eqb_eq in He. subst rc. rewrite sstep_connack. cbn [fst snd].
+    rewrite nonsub_app, nonsub_subs. cbn [app messages_of flat_map]. apply IH; assumption.
+  - rewrite (sstep_message_good tp q s m G). cbn [fst snd messages_of flat_map app msteps].
+    destruct (IH _ (proj1 (simple_step_good s m G)) Hc) as [I1 I2].
+    split; [exact I1|]. rewrite nonsub_app. unfold messages_of in I2. rewrite I2. f_equal.
+    destruct (simple_step_good s m G) as [_ [E|E]]; rewrite E; reflexivity.
+Qed.
+
+Theorem simple_any_order tp qos n r evs : 1 <= n -> qos_bad qos = false -> connacks_ok evs = true ->
+  fst (h_simple tp qos n r evs) = simple_result n r (messages_of evs)
+  /\ nonsub (snd (h_simple tp qos n r evs)) =
+     if enough n r (messages_of evs) then [SDisconnect] else [].
+Proof.
+  intros Hn Hq Hc. unfold h_simple. assert (A : n <? 1 = false) by lia. rewrite A, Hq. cbn [fst snd].
+  destruct (srun_any tp qos evs _ (good_init n r Hn) Hc) as [I1 I2].
+  rewrite I1, I2, (msteps_init n r _ Hn). split; reflexivity.
+Qed.
+
+(* ---- argument checks and a refused connection *)
+Theorem simple_bad_count tp qos n r evs : n < 1 -> h_simple tp qos n r evs = (MNone, [SRaise 1]).
+Proof. intro H. unfold h_simple. assert (A : n <? 1 = true) by lia. rewrite A. reflexivity. Qed.
+
+Theorem sub_refused tp qos n r rc evs : 1 <= n -> qos_bad qos = false -> rc =? 0 = false ->
+  snd (h_simple tp qos n r (SEConnack rc :: evs)) = [SRaise 3]
+  /\ h_callback tp qos (SEConnack rc :: evs) = [SRaise 3].
+Proof.
+  intros Hn Hq Hrc. unfold h_simple, h_callback. assert (A : n <? 1 = false) by lia. rewrite A, Hq.
+  rewrite !srun_cons, !(sstep_refused _ tp qos _ rc Hrc). cbn [fst snd].
+  rewrite !srun_halted by reflexivity. split; reflexivity.
+Qed.
+
+(* ---- callback() *)
+Lemma srun_callback_msgs tp q st : forall ins,
+  srun ModeCallback tp q (mkSub st false) (map SEMessage ins) = (mkSub st false, map SUser ins).
+Proof.
+  induction ins as [|m ins IH]; [reflexivity|].
+  cbn [map]. rewrite srun_cons. unfold sstep at 1 2 3. cbn [u_halt fst snd h_on_message_callback].
+  rewrite IH. reflexivity.
+Qed.
+
+Theorem callback_coop tp qos ins : qos_bad qos = false ->
+  h_callback tp qos (coop_sub ins) = subs tp qos ++ map SUser ins.
+Proof.
+  intro Hq. unfold h_callback, coop_sub. rewrite Hq, srun_cons, sstep_connack. cbn [fst snd].
+  rewrite srun_callback_msgs. reflexivity.
+Qed.
+
+Lemma users_app a b : users (a ++ b) = users a ++ users b.
+Proof. unfold users. apply flat_map_app. Qed.
+
+Lemma srun_callback_any tp q st : forall evs, connacks_ok evs = true ->
+  users (snd (srun ModeCallback tp q (mkSub st false) evs)) = messages_of evs.
+Proof.
+  induction evs as [|e evs IH]; intro Hc; [reflexivity|].
+  cbn [connacks_ok forallb] in Hc. apply andb_true_iff in Hc as [He Hc].
+  rewrite srun_cons. destruct e as [rc|m].
+  - apply Z.eqb_eq in He. subst rc. rewrite sstep_connack. cbn [fst snd].
+    rewrite users_app, users_subs. cbn [app messages_of flat_map]. apply IH. exact Hc.
+  - unfold sstep at 1 2 3. cbn [u_halt fst snd]. unfold h_on_message_callback.
+    rewrite users_app. cbn [users flat_map app messages_of]. f_equal. apply IH. exact Hc.
+Qed.
+
+Theorem callback_any tp qos evs : qos_bad qos = false -> connacks_ok evs = true ->
+  users (h_callback tp qos evs) = messages_of evs.
+Proof. intros Hq Hc. unfold h_callback. rewrite Hq. apply srun_callback_any. exact Hc. Qed.
+
+Theorem callback_bad_qos tp qos evs : qos_bad qos = true -> h_callback tp qos evs = [SRaise 1].
+Proof. intro H. unfold h_callback. rewrite H. reflexivity. Qed.
+
+(* one subscribe per topic, in order; a string is one subscribe *)
+Theorem subs_shape qos : (forall t, subs (TSingle t) qos = [SSubscribe t qos])
+  /\ (forall l, subs (TList l) qos = map (fun t => SSubscribe t qos) l).
+Proof. split; reflexivity. Qed.
